@@ -8,6 +8,7 @@ mod oracle;
 mod props;
 mod battery;
 mod ikprops;
+mod c12;
 
 pub struct Case(pub HashMap<String, Vec<f64>>, pub HashMap<String, String>);
 impl Case {
